@@ -94,6 +94,22 @@ type CasesFile struct {
 
 func (c *CasesFile) Add(s string) { c.Items = append(c.Items, s) }
 
+// caseAdder receives correspondence cases; wrapAdder wraps each in a constructor of a sum type.
+type caseAdder interface{ Add(string) }
+type wrapAdder struct {
+	cf   *CasesFile
+	ctor string
+}
+
+func (w wrapAdder) Add(s string) { w.cf.Add("(" + w.ctor + " " + s + ")") }
+
+const xlateImports = "Model.Base Model.Graph Model.Spdx Model.Cdx Corr.CheckSpdx Corr.CheckCdx Corr.CheckXlate"
+
+func newXlateCases() (*CasesFile, caseAdder, caseAdder) {
+	cf := &CasesFile{Imports: xlateImports, Type: "case_x", Eval: "mismatches"}
+	return cf, wrapAdder{cf, "XS"}, wrapAdder{cf, "XC"}
+}
+
 // Write writes the cases as shards of at most shardSize cases: <base>_<k>.v. It returns
 // the shard paths; case i of shard k is global case k*shardSize+i.
 const shardSize = 120
